@@ -101,6 +101,8 @@ func vGen64(p string) (*Bitmap, *wSet) {
 			key = []uint32{5, 20, 50}[i]
 		case pat == 10:
 			key = []uint32{0, 5, 9}[i]
+		case pat == 11: // nb consecutive buckets ending at the top of the key space
+			key = uint32(0xFFFFFFFF - uint32(nb-1) + uint32(i))
 		case pat == 1 && i == 0:
 			key = 0
 		case pat == 2 && i == nb-1:
@@ -122,6 +124,8 @@ func vGen64(p string) (*Bitmap, *wSet) {
 			lo := vsym.U32()
 			if w := vsym.Param(p + "low"); w > 0 {
 				lo = uint32(vsym.Param(p+"lowb")) + (lo & uint32(w))
+			} else if w < 0 {
+				lo = uint32(vsym.Param(p+"lowb")) + uint32(j) // concrete values (key-arithmetic instances)
 			}
 			inner.Add(lo)
 			s.elems = append(s.elems, uint64(key)<<32|uint64(lo))
